@@ -1,4 +1,5 @@
 import GodiProofs.Container.Instances
+import GodiProofs.Container.ScopedHistory
 /-!
 # C02 — Scoped: one instance per scope, never shared between scopes (sequential clauses)
 
@@ -77,6 +78,43 @@ theorem initializers_run_at_creation (beh : Beh) (st : State) (parent : Option N
   unfold newScope
   simp only [↓reduceIte]
   rfl
+
+/-- ONE INSTANCE PER SCOPE, for whole histories. `Cfg descs rank`: the structural facts the collection
+guarantees (`WF`, `RegWF`) and a rank on constructors that strictly decreases along every declared
+dependency (plain, keyed, group member, parameter-object field) — it exists exactly when the
+dependency relation is acyclic, which Build has checked. For every such registry, every constructor
+behaviour (failures and panics at any invocation included; `NoNilOutputs`: no result-object field left
+nil — the recorded finding D15), every state satisfying the invariant and every history of
+Get / GetKeyed / GetGroup / CreateScope / Close over existing scopes: in no scope does the
+constructor of a scoped registration succeed twice, and once it has succeeded every identity of the
+registration (aliases, multiple returns, result fields) is cached in that scope, so every later
+resolution there — direct, keyed, via a group, or as an argument — is a cache hit (`cache_hit`).
+(Registries with scoped initializer functions: the initializer clause is `initializers_run_at_creation`;
+this theorem assumes `st.initializers = []`.) -/
+theorem one_instance_per_scope (beh : Beh) (hnil : NoNilOutputs beh) (descs : List Desc) (rank : Nat → Nat)
+    (cfg : Cfg descs rank) (st : State) (inv : SInv descs st) (hi : st.initializers = [])
+    (ops : List Op) (hv : ValidHist beh st ops) (s c : Nat) (hc : ScopedCtor descs c) :
+    countIn (run beh st ops).log c s ≤ 1 ∧
+    (countIn (run beh st ops).log c s = 1 → ((run beh st ops).scope s).disposed = false →
+      ∀ d ∈ descs, d.ctor = c → Cached (run beh st ops) s d.ident) := by
+  have h := sinv_run beh hnil descs rank cfg ops st inv hi hv
+  exact ⟨h.atMost s c hc, h.stored s c hc⟩
+
+/-- the invariant holds in every state in which no scoped constructor has run yet and every open
+scope has a cache — in particular right after the provider has been built -/
+theorem invariant_initially (descs : List Desc) (st : State) (hd : st.descs = descs)
+    (hz : ∀ c s, ScopedCtor descs c → countIn st.log c s = 0)
+    (hf : ∀ s, st.nscopes ≤ s → ∀ c, countIn st.log c s = 0)
+    (ho : ∀ s, (st.scope s).disposed = false → ∃ m, (st.scope s).instances = some m) : SInv descs st :=
+  ⟨hd, fun s c hc => by rw [hz c s hc]; exact Nat.zero_le _,
+   fun s c hc h1 => by rw [hz c s hc] at h1; exact absurd h1 (by decide), ho, hf⟩
+
+/-- one resolution step inside a scope, with the rank bound made explicit: every constructor event it
+adds ran through that scope, and the invariant is preserved — for every fuel -/
+theorem resolution_preserves (beh : Beh) (hnil : NoNilOutputs beh) (descs : List Desc) (rank : Nat → Nat)
+    (cfg : Cfg descs rank) (st : State) (inv : SInv descs st) (s ty key : Nat) (hs : s < st.nscopes) :
+    SInv descs (scopeGet beh st s ty key).1 :=
+  sinv_scopeGet beh hnil descs rank cfg st inv s ty key hs
 
 def ex : List Desc :=
   [{ id := 0, ident := ⟨3, 0, 0⟩, life := .scoped, ctor := 1, kind := .plain, deps := [] }]
